@@ -78,7 +78,7 @@ BadFiles(e) ==
         ELSE IF f \in GraphFiles /\ e.relation = "vizonly" THEN FALSE ELSE ~SameSeq(e, f)}
 
 Fresh == [clean |-> FALSE, inRun |-> FALSE, forced |-> FALSE, driver |-> "none",
-          wrote |-> {}, cacheWritten |-> FALSE, failed |-> FALSE, status |-> "none",
+          wrote |-> {}, cacheWritten |-> FALSE, cacheFailed |-> FALSE, failed |-> FALSE, status |-> "none",
           upToDate |-> FALSE, lostByEnv |-> {}, case |-> "none"]
 
 Report(ok, prop, what) ==
@@ -92,7 +92,7 @@ Step(e) ==
                              !.lostByEnv = IF e.kind = "lose" THEN @ \cup {e.what} ELSE @]
       [] e.event = "RunStart" ->
             st' = [st EXCEPT !.inRun = TRUE, !.forced = e.forced, !.driver = e.driver,
-                             !.wrote = {}, !.cacheWritten = FALSE, !.failed = FALSE]
+                             !.wrote = {}, !.cacheWritten = FALSE, !.cacheFailed = FALSE, !.failed = FALSE]
       [] e.event = "Sys" ->
             /\ Report(MutationAllowed(e), "C16", <<"mutation outside the reserved names", e.op, e.path>>)
             \* C14: nothing is touched when nothing changed since a successful generation
@@ -104,6 +104,7 @@ Step(e) ==
             /\ st' = [st EXCEPT
                         !.wrote = IF e.op = "write" /\ e.where = "out" /\ e.ok THEN @ \cup {e.name} ELSE @,
                         !.cacheWritten = @ \/ (IsCacheWrite(e) /\ e.ok),
+                        !.cacheFailed = @ \/ (IsCacheWrite(e) /\ ~e.ok),
                         !.failed = @ \/ (IsBindingWrite(e) /\ ~e.ok),
                         !.lostByEnv = IF e.op = "write" /\ e.ok THEN @ \ {e.name} ELSE @]
       [] e.event = "RunEnd" ->
@@ -139,7 +140,10 @@ Step(e) ==
             /\ st' = [st EXCEPT !.clean =
                         IF st.status # "ok" \/ expected = {} THEN FALSE
                         ELSE IF st.upToDate THEN @
-                        ELSE ".typecache" \in st.wrote]
+                        \* a successful generation leaves a cleanly generated project behind - unless writing the cache
+                        \* record was attempted and failed (then the next run legitimately regenerates).  A run that
+                        \* does not even try to record itself is NOT excused: the next unchanged run must still be quiet.
+                        ELSE ~st.cacheFailed]
       [] e.event = "Outputs" ->
             \* C13: two generations (different processes / transformed sources) related as the property demands
             /\ Report(OutputsOk(e), "C13", <<e.relation, e.what, BadFiles(e)>>)
